@@ -286,6 +286,10 @@ type ConnSpec struct {
 	NoCmd    bool       `json:"nocmd,omitempty"`     // resume: leave the Command attribute out
 	Steps    []StepSpec `json:"steps,omitempty"`     // per invocation; missing = ka
 	Tables   int        `json:"tables"`              // tables in force at the first dispatch
+	// CutAfter > 0 (honest client): the client's connection dies after that many frames from the
+	// server, i.e. before the post-auth message can be delivered: the handshake fails on the server
+	// AFTER it has filed the session
+	CutAfter int `json:"cut_after,omitempty"`
 }
 type Event struct {
 	Conn   *ConnSpec   `json:"conn,omitempty"`
@@ -293,7 +297,10 @@ type Event struct {
 	Import *ImportSpec `json:"import,omitempty"`
 }
 type CaseSpec struct {
-	Class  string    `json:"class"`
+	// Custom: the server's SecurityConfig carries its own SessionCache; installed sessions go
+	// there, handshake-negotiated ones are found through the fallback to the process-wide cache
+	Custom bool   `json:"custom,omitempty"`
+	Class  string `json:"class"`
 	Tables []*Tables `json:"tables"`
 	Events []Event   `json:"events"`
 }
@@ -382,6 +389,7 @@ type caseRun struct {
 	hsTerm   []string
 	fails    []fail
 	shared   []*security.SecurityConfig // the server's long-lived config objects
+	custom   *security.SessionCache     // non-nil: the server config's own cache
 	checks   int
 	mu       sync.Mutex
 }
@@ -393,6 +401,41 @@ type recConn struct {
 	mu     sync.Mutex
 	closed bool
 }
+// cutConn lets a number of CEDAR frames from the peer through and then fails.
+type cutConn struct {
+	net.Conn
+	left   int // frames still allowed
+	need   int // bytes of the current frame (header or payload) still to deliver
+	inBody bool
+	hdr    []byte
+}
+
+func (c *cutConn) Read(p []byte) (int, error) {
+	if c.need == 0 {
+		if c.inBody || c.hdr == nil {
+			if c.left == 0 {
+				_ = c.Conn.Close()
+				return 0, io.ErrUnexpectedEOF
+			}
+			c.left--
+			c.need, c.inBody, c.hdr = 5, false, make([]byte, 0, 5)
+		}
+	}
+	if len(p) > c.need {
+		p = p[:c.need]
+	}
+	n, err := c.Conn.Read(p)
+	c.need -= n
+	if !c.inBody {
+		c.hdr = append(c.hdr, p[:n]...)
+		if c.need == 0 {
+			c.need = int(c.hdr[1])<<24 | int(c.hdr[2])<<16 | int(c.hdr[3])<<8 | int(c.hdr[4])
+			c.inBody = true
+		}
+	}
+	return n, err
+}
+
 type strAddr string
 
 func (a strAddr) Network() string { return "tcp" }
@@ -430,6 +473,7 @@ func (r *caseRun) mkCfg(p *Pol) *security.SecurityConfig {
 		Encryption:     security.SecurityLevel(p.E),
 		Integrity:      security.SecurityLevel(p.I),
 		PostAuthPolicy: r.postAuthWrapper,
+		SessionCache:   r.custom,
 	}
 }
 
@@ -783,7 +827,11 @@ func (r *caseRun) runConn(sp *ConnSpec) (obsTerm string, connTerm string) {
 		serr = r.srv.ServeConn(ctx, rc)
 	}()
 
-	st := stream.NewStream(cc)
+	var clientEnd net.Conn = cc
+	if sp.CutAfter > 0 {
+		clientEnd = &cutConn{Conn: cc, left: sp.CutAfter}
+	}
+	st := stream.NewStream(clientEnd)
 	st.SetPeerAddr("<192.0.2.1:9618>")
 	var res clientResult
 	var resumeSess *sessInfo
@@ -875,6 +923,15 @@ func (r *caseRun) runConn(sp *ConnSpec) (obsTerm string, connTerm string) {
 	// handshake input of the model
 	switch sp.Kind {
 	case "honest", "scripted":
+		if cr.post != nil && res.sid == "" && sp.CutAfter > 0 {
+			// the client never learned the id of the session the server filed: find it by this
+			// connection's (unique) peer address
+			for _, e := range security.GetSessionCache().Snapshot() {
+				if e.Addr() == sp.Peer {
+					res.sid = e.ID()
+				}
+			}
+		}
 		if cr.post != nil {
 			sidx := r.sidIndex(res.sid)
 			if res.sid == "" {
@@ -887,9 +944,20 @@ func (r *caseRun) runConn(sp *ConnSpec) (obsTerm string, connTerm string) {
 				hasKey = true
 				si.key = e.KeyInfo().Data
 			}
-			hs = fmt.Sprintf("(HsFull (Build_full %s %s %s %d %d %s %s %s))", core.Z(int64(sp.Cmds[0])),
+			full := fmt.Sprintf("(Build_full %s %s %s %d %d %s %s %s)", core.Z(int64(sp.Cmds[0])),
 				core.Bool(cr.post.authn), core.Bool(cr.post.enc), userCode(cr.post.user), sidx,
 				core.Bool(hasKey), core.Bool(res.authReal), core.Bool(res.encReal))
+			hs = "(HsFull " + full + ")"
+			if sp.CutAfter > 0 && !res.hsOK {
+				// the handshake returned an error after the session was filed; what the client
+				// really did up to there is what an honest client of that kind does
+				authReal := cr.post.authn
+				si.authReal = authReal
+				full = fmt.Sprintf("(Build_full %s %s %s %d %d %s %s %s)", core.Z(int64(sp.Cmds[0])),
+					core.Bool(cr.post.authn), core.Bool(cr.post.enc), userCode(cr.post.user), sidx,
+					core.Bool(hasKey), core.Bool(authReal), core.Bool(hasKey))
+				hs = "(HsErr (Some " + full + "))"
+			}
 		}
 	case "resume":
 		c := "(Some " + core.Z(int64(sp.Cmds[0])) + ")"
@@ -1041,8 +1109,11 @@ func clientSideEntry(authn bool) (string, error) {
 	cfg := &security.SecurityConfig{
 		AuthMethods: []security.AuthMethod{security.AuthClaimToBe}, CryptoMethods: []security.CryptoMethod{security.CryptoAES},
 		Authentication: lvl, Encryption: security.SecurityPreferred, Integrity: security.SecurityOptional,
-		Command: cmdP, TrustDomain: "verif", SecurityTag: fmt.Sprintf("c05-%d", time.Now().UnixNano()),
-		// SessionCache nil: the process-wide cache, as for any daemon that does not configure one
+		Command: cmdP, TrustDomain: "verif",
+		// The other server lives in another process. In this single process its server half
+		// files ITS record in the process-wide cache too, so the client half uses a private
+		// cache here and the records are put where they would be in a two-process deployment below.
+		SessionCache: security.NewSessionCache(),
 	}
 	neg, err := security.NewAuthenticator(cfg, st).ClientHandshake(ctx)
 	_ = cc.Close()
@@ -1050,10 +1121,14 @@ func clientSideEntry(authn bool) (string, error) {
 	if err != nil {
 		return "", err
 	}
-	e, ok := security.GetSessionCache().Lookup(neg.SessionId)
+	e, ok := cfg.SessionCache.Lookup(neg.SessionId)
 	if !ok || e.Addr() != remoteAddr {
 		return "", fmt.Errorf("the cache entry for %s is not the client-side record", neg.SessionId)
 	}
+	// the remote server's own record belongs to the remote process; ours is what
+	// storeClientSession produced, in the cache our server half shares
+	security.GetSessionCache().Invalidate(neg.SessionId)
+	security.GetSessionCache().Store(e)
 	return neg.SessionId, nil
 }
 
@@ -1062,6 +1137,9 @@ var importMu sync.Mutex
 
 func runCase(spec *CaseSpec) (term string, checks int, fails []fail) {
 	r := &caseRun{spec: spec, sids: map[string]int{}, handlers: map[int]server.HandlerFunc{}, cliCache: security.NewSessionCache()}
+	if spec.Custom {
+		r.custom = security.NewSessionCache()
+	}
 	cfg0 := r.mkCfg(&opt)
 	cfg0.PostAuthPolicy = nil
 	r.srv = server.New(cfg0)
@@ -1080,6 +1158,10 @@ func runCase(spec *CaseSpec) (term string, checks int, fails []fail) {
 			n := importCounter
 			importMu.Unlock()
 			sid := fmt.Sprintf("verif-c05-import-%d", n)
+			target := security.GetSessionCache()
+			if r.custom != nil && !im.Client {
+				target = r.custom
+			}
 			if im.Client {
 				csid, err := clientSideEntry(im.Authn)
 				if err != nil {
@@ -1089,7 +1171,7 @@ func runCase(spec *CaseSpec) (term string, checks int, fails []fail) {
 				sid = csid
 			} else if im.Mint {
 				// a startd-style claim session, created by the library itself
-				mc, err := security.MintClaimSession(security.GetSessionCache(), security.MintClaimOptions{
+				mc, err := security.MintClaimSession(target, security.MintClaimOptions{
 					Sinful: "<10.9.9.9:9618?sock=c05>", Birthdate: 1700000000, SequenceNum: n,
 					PeerFQU: im.User, ValidCommands: im.Valid,
 				})
@@ -1114,12 +1196,12 @@ func runCase(spec *CaseSpec) (term string, checks int, fails []fail) {
 				if len(im.Valid) > 0 {
 					_ = pol.Set("ValidCommands", joinCmds(im.Valid))
 				}
-				security.GetSessionCache().Store(security.NewSessionEntry(sid, addr1, ki, pol, time.Now().Add(time.Hour), 30*time.Minute, ""))
+				target.Store(security.NewSessionEntry(sid, addr1, ki, pol, time.Now().Add(time.Hour), 30*time.Minute, ""))
 			}
 			idx := r.sidIndex(sid)
 			si := r.sess[idx-1]
 			// the model's entry is read back from what is really in the cache
-			e, ok := security.GetSessionCache().Lookup(sid)
+			e, ok := target.Lookup(sid)
 			if !ok {
 				r.fails = append(r.fails, fail{"harness-import-missing", sid})
 				continue
@@ -1146,10 +1228,18 @@ func runCase(spec *CaseSpec) (term string, checks int, fails []fail) {
 			// a client-side record says that THIS process authenticated to the other server;
 			// the server under test never authenticated anybody for it
 			si.user, si.authReal = usr, authn && !im.Forged && !im.Client
-			evs = append(evs, fmt.Sprintf("(TImport %d (Build_sentry %s %s %d %s %s))", idx, kk, core.Bool(authn), userCode(usr), zlist(parseCmds(vc)), core.Bool(si.authReal)))
+			cside, _ := e.Policy().EvaluateAttrBool("CedarClientSideSession")
+			ctor := "TImport"
+			if im.Client {
+				ctor = "TClient"
+			}
+			evs = append(evs, fmt.Sprintf("(%s %d (Build_sentry %s %s %d %s %s %s))", ctor, idx, kk, core.Bool(authn), userCode(usr), zlist(parseCmds(vc)), core.Bool(cside), core.Bool(si.authReal)))
 		case ev.Drop > 0:
 			if ev.Drop <= len(r.sess) {
 				security.GetSessionCache().Invalidate(r.sess[ev.Drop-1].sid)
+				if r.custom != nil {
+					r.custom.Invalidate(r.sess[ev.Drop-1].sid)
+				}
 			}
 			evs = append(evs, fmt.Sprintf("(TDrop %d)", ev.Drop))
 		}
@@ -1342,6 +1432,53 @@ func generate(c *core.Ctx) []*CaseSpec {
 						g.add(&CaseSpec{Class: cl, Tables: []*Tables{ta, tb}, Events: []Event{{Import: imp}, {Conn: r1}, {Conn: r2}, {Conn: r3}}})
 					}
 				}
+			}
+		}
+	}
+	// (8) role separation in the shared cache: this process, as a CLIENT of another server, holds
+	// the client-side record of that session (real ClientHandshake + storeClientSession); a peer
+	// naming that session id on OUR server must be treated like an unknown session -- the record
+	// says who WE are at that server, nobody was ever authenticated by us
+	for _, authn := range []bool{true, false} {
+		for _, az := range []string{"none", "users", "generous"} {
+			for _, c1 := range []int{cmdP, cmdA, cmdE, cmdAE, cmdN} {
+				t := withAuthz(base, az)
+				res := &ConnSpec{Peer: addr1, Kind: "resume", ResumeOf: 1, Cmds: []int{c1, cmdAE}, Tables: 0}
+				g.add(&CaseSpec{Class: "client-record/other-server", Tables: []*Tables{t}, Events: []Event{{Import: &ImportSpec{Key: "aes", Authn: authn, Client: true}}, {Conn: res}}})
+			}
+		}
+	}
+	// (9) the handshake fails on the server AFTER the session was filed (the client's connection
+	// dies before the post-auth message): nothing is dispatched, but the session exists and a
+	// later connection naming it is served according to what was filed
+	abortN := 0
+	for _, k := range kinds[:4] {
+		for _, cut := range []int{1, 4} {
+			for _, c1 := range []int{cmdP, cmdA, cmdAE} {
+				abortN++
+				first := connOf(k, []int{cmdP}, 0)
+				first.CutAfter = cut
+				first.Peer = fmt.Sprintf("10.0.0.77:%d", 1000+abortN)
+				res := &ConnSpec{Peer: addr1, Kind: "resume", ResumeOf: 1, Cmds: []int{c1, cmdP}, Tables: 0}
+				g.add(&CaseSpec{Class: "abort-after-store", Tables: []*Tables{withAuthz(base, "none")}, Events: []Event{{Conn: first}, {Conn: res}}})
+			}
+		}
+	}
+	// (10) the server's SecurityConfig carries its own SessionCache: installed sessions live there,
+	// negotiated ones are reached through the fallback to the process-wide cache
+	for _, az := range []string{"none", "claims"} {
+		for _, c1 := range []int{cmdP, cmdA, cmdAE} {
+			t := withAuthz(base, az)
+			for _, mint := range []bool{false, true} {
+				imp := &ImportSpec{Key: "aes", Authn: true, User: "alice", Valid: []int{c1}, Mint: mint}
+				res := &ConnSpec{Peer: addr1, Kind: "resume", ResumeOf: 1, Cmds: []int{c1, cmdAE}, Tables: 0}
+				g.add(&CaseSpec{Custom: true, Class: "custom-cache/installed", Tables: []*Tables{t}, Events: []Event{{Import: imp}, {Conn: res}, {Drop: 1}, {Conn: res}}})
+			}
+			for _, k := range kinds[:2] {
+				first := connOf(k, []int{cmdP}, 0)
+				first.Steps = []StepSpec{{Ret: "done"}}
+				res := &ConnSpec{Peer: addr1, Kind: "resume", ResumeOf: 1, Cmds: []int{c1, cmdP}, Tables: 0}
+				g.add(&CaseSpec{Custom: true, Class: "custom-cache/negotiated", Tables: []*Tables{t}, Events: []Event{{Conn: first}, {Conn: res}}})
 			}
 		}
 	}
